@@ -493,9 +493,16 @@ def main():
     except (OSError, ValueError):
         expected_ctx = {}
     if os.environ.get("VERIF_RECORD_CONTEXTS") == "1":
-        expected_ctx.setdefault(pid, {})[tier] = ctx_seen
-        with open(ecp, "w") as fh:
-            json.dump(expected_ctx, fh, indent=1, sort_keys=True)
+        import relicbuild as _rb
+        with _rb.FileLock(os.path.join(_rb.CACHE, "locks", "expected-contexts.lock")):      # several recording runs may go on at once
+            try:
+                expected_ctx = json.load(open(ecp))
+            except (OSError, ValueError):
+                expected_ctx = {}
+            expected_ctx.setdefault(pid, {})[tier] = ctx_seen
+            with open(ecp + ".tmp", "w") as fh:
+                json.dump(expected_ctx, fh, indent=1, sort_keys=True)
+            os.replace(ecp + ".tmp", ecp)
     else:
         missing_ctx = [c for c in expected_ctx.get(pid, {}).get(tier, []) if c not in ctx_seen]
         if missing_ctx and recs:
